@@ -153,7 +153,9 @@ def lake_build(targets=("GFO", "driver"), timeout=3000):
 def run_driver(lines, timeout=600):
     """feed command lines to the native model driver; returns its output lines"""
     if not os.path.exists(DRIVER):
-        raise Infra("driver binary missing (lake build failed?)")
+        lake_build(targets=("driver",))          # e.g. a concurrent rebuild removed it for a moment
+        if not os.path.exists(DRIVER):
+            raise Infra("driver binary missing (lake build failed?)")
     data = "\n".join(lines) + "\n"
     try:
         p = subprocess.run([DRIVER], input=data, capture_output=True, text=True, timeout=timeout)
